@@ -166,6 +166,16 @@ CHECKS = {
         "Banks that do not fit the data are out of scope.",
         "DESIGN.md section 3 C13",
     ),
+    "C14": (
+        "exploration",
+        "complete enumeration of a small box (length x window/factor x method x dtype) against direct definitions",
+        "running_filter for every length 1..12 (24), every window 1..2n+3 (odd, even, larger than the data), both methods and three dtypes is "
+        "compared with the mean/median of the centred window on the multiply reflected series and must keep the input length; downsample_1d for "
+        "every factor 1..n (n+1 must be refused), downsample_2d and downsample_2d_flat for every factor pair on non-square shapes, "
+        "FilterbankBlock.downsample and TimeSeries.downsample (data and header), detrend_1d vs least squares and deredden = input - running filter.",
+        "Even windows: either centre accepted. Integer-typed kernel outputs compared with floor(mean). Values seeded; box bounds as stated.",
+        "DESIGN.md section 3 C14",
+    ),
 }
 
 ENGINES = [
